@@ -67,6 +67,7 @@ def run(F, chk):
                     ra.violation(key, b.where(bi, si), "the send window is debited / DATA emitted %s" % (
                         "on a path that tested neither `payload fits the window` nor `window > 0`" if not (edges and lib.guarded_by(b, bi, edges))
                         else "with a payload length that no longer flows through min(max_frame_size, window)"))
+    data_never_discarded_rule(F, chk)
     # ---------------- R-C14-b ----------------------------------------------------
     rb = chk.rule("R-C14-b", "T5+T4", "outgoing streams behind the peer's MAX_CONCURRENT_STREAMS; closed writers of last_stream_id", floor=2)
     ss = lib.flat(F, F.body(H2 + "::<Front>::start_stream"))
@@ -162,3 +163,65 @@ def run(F, chk):
             rd.ok("%s|queue_window_update present" % b.path, b.where(q[0]), "%d queue_window_update site(s) in the DATA handler" % len(q), nontrivial=False)
         else:
             rd.violation("%s|queue_window_update present" % b.path, b.where(), "handle_data_frame never queues a WINDOW_UPDATE: the advertised windows are not replenished")
+
+
+def data_never_discarded_rule(F, chk):
+    """R-C14-e: every DATA payload the peer sends is charged against sozu's advertised connection window; the window is
+    given back (WINDOW_UPDATE) by the DATA handler, also for streams that are already closed.  The `Discard` reader state
+    swallows a frame's payload without dispatching it, so it may only be entered for frames that carry no flow-control
+    debt: wherever `state = H2State::Discard` is assigned, the frame type on that path is not DATA."""
+    r = chk.rule("R-C14-e", "T5", "a DATA payload is never swallowed by the Discard state (its window credit would be lost)", floor=1)
+    FT = "sozu_lib::protocol::mux::parser::FrameType"
+    data_d = F.variant_discr(FT).get("Data")
+    n = 0
+    roots = set()
+    def discard_writes(bb):
+        out = []
+        for bi, si, st in bb.stmts():
+            lhs = st.get("lhs")
+            if not (isinstance(lhs, dict) and proj_fields(lhs) and proj_fields(lhs)[-1][2] == "state"):
+                continue
+            rv = st["rv"]
+            if rv["k"] == "use" and op_local(rv["a"]) is not None:
+                d = bb.single_def(op_local(rv["a"]))
+                rv = d[3] if d and d[2] == "assign" else rv
+            if rv["k"] == "agg" and rv.get("var") == "Discard":
+                out.append((bi, si))
+        return out
+    discarders = set()
+    for b0 in F.grep('"var":"Discard"'):
+        if b0.derived or not b0.path.startswith(H2):
+            continue
+        if discard_writes(b0):
+            roots.add(b0.path)
+            discarders.add(b0.path)
+    # functions that enter Discard through a helper are examined at the helper's call sites
+    for dpath in sorted(discarders):
+        for cb, _, _ in F.call_sites(dpath):
+            if cb.path.startswith(H2):
+                roots.add(cb.root if "{closure" in cb.path else cb.path)
+    for rp in sorted(roots):
+        b = F.body(rp)
+        writes = discard_writes(b) + [(bi, None) for bi, t in b.calls() if callee_of(t) in discarders]
+        # edges on which the frame being handled is known to be DATA
+        data_edges = []
+        for sb in sorted(b.reachable()):
+            t = b.blocks[sb]["t"]
+            if t["k"] != "switch":
+                continue
+            l = op_local(t["op"])
+            d = b.single_def(l) if l is not None else None
+            if d and d[2] == "assign" and d[3]["k"] == "discr" and d[3]["adt"] == FT:
+                data_edges += [(sb, tg) for v, tg in t["ts"] if int(v) == data_d]
+        for i, (bi, si) in enumerate(writes):
+            n += 1
+            r.fn(b.path)
+            key = "%s|Discard#%d not for DATA" % (b.path, i)
+            dom = b.dominators()
+            hit = [e for e in data_edges if e[1] in dom.get(bi, ()) and bi in b.reach_from([e[1]])]
+            # dominated by the DATA arm: the target block of a DATA edge dominates the write
+            if hit:
+                r.violation(key, b.where(bi, si), "the reader enters H2State::Discard for a DATA frame: its payload is dropped without reaching the DATA handler, so the bytes the peer spent from the connection window are never credited back (WINDOW_UPDATE) and later uploads on the connection stall")
+            else:
+                r.ok(key, b.where(bi, si), "not on a path that established FrameType::Data")
+    r.require(n >= 1, "no assignment of H2State::Discard found")
